@@ -50,7 +50,7 @@ class State:
     """Immutable-by-convention: every update returns a new State (cheap shallow copies)."""
 
     __slots__ = ("env", "pc", "heap", "nalloc", "decisions", "touched", "lifted", "ghost", "entry_heap", "depth",
-                 "havoc_count", "frames", "lens")
+                 "havoc_count", "frames", "lens", "havoc_rules")
 
     def __init__(self) -> None:
         self.env: Dict[str, Any] = {}
@@ -66,6 +66,7 @@ class State:
         self.havoc_count: int = 0
         self.frames: Tuple[Any, ...] = ()
         self.lens: Dict[int, int] = {}   # list address term id -> statically known length (invalidated by mutation)
+        self.havoc_rules: Tuple[Any, ...] = ()   # (id, predicate over heap keys): loop havocs for components not yet in `heap`
 
     def copy(self) -> "State":
         s = State.__new__(State)
@@ -82,6 +83,7 @@ class State:
         s.havoc_count = self.havoc_count
         s.frames = self.frames
         s.lens = self.lens
+        s.havoc_rules = self.havoc_rules
         return s
 
     def assume(self, *fs: Any) -> "State":
@@ -127,6 +129,10 @@ class State:
     # ---- heap -------------------------------------------------------------------------------
     def harr(self, key: str, dom: z3.SortRef, rng: z3.SortRef) -> Any:
         if key not in self.heap:
+            # a component first used after a loop havoc that covers it is unknown there (not its entry value)
+            for rid, rule in reversed(self.havoc_rules):
+                if rule(key):
+                    return z3.Const(f"Hh{rid}<{key}>", z3.ArraySort(dom, rng))
             return initial_heap_array(key, dom, rng)
         return self.heap[key]
 
